@@ -298,6 +298,13 @@ def run_cli_many(jobs, timeout):
         return list(ex.map(lambda j: run_cli(j, timeout), jobs))
 
 
+def run_matrix_capped(jobs, timeout):
+    """like pool.run_matrix, but never more than JOBS worker processes at a time: the option sets run one after
+    the other, each on JOBS workers.  jobs: [(optargv, cmds)] -> list of result lists"""
+    import pool
+    return [pool.run_commands(argv, cmds, JOBS, timeout) if cmds else [] for argv, cmds in jobs]
+
+
 # ---------------------------------------------------------------------------------------------
 # projection
 
